@@ -539,4 +539,427 @@ theorem snfCalc_exists_fuel (dbg : Bool) (pre : St Int m n → Res (St Int m n))
     · exact ⟨0, fun _ _ => by simp⟩
     · rename_i h; exact absurd h hpre
 
+/-! ### over ℤ the code model never panics (so, with enough fuel, it returns) -/
+
+theorem foldlM_total {σ β : Type} (f : σ → β → Res σ) (P : σ → Prop)
+    (hstep : ∀ s x, P s → ∃ s', f s x = .ok s' ∧ P s') :
+    ∀ (l : List β) (s : σ), P s → ∃ s', l.foldlM f s = .ok s' ∧ P s'
+  | [], s, hp => ⟨s, rfl, hp⟩
+  | x :: l, s, hp => by
+    obtain ⟨y, hy, hpy⟩ := hstep s x hp
+    rw [List.foldlM_cons, hy]
+    exact foldlM_total f P hstep l y hpy
+
+theorem foldlM_ne_panic {σ β : Type} (f : σ → β → Res σ) (hf : ∀ s x, f s x ≠ .panic) :
+    ∀ (l : List β) (s : σ), l.foldlM f s ≠ .panic
+  | [], s => by simp
+  | x :: l, s => by
+    rw [List.foldlM_cons]
+    cases h : f s x with
+    | ok y => exact foldlM_ne_panic f hf l y
+    | panic => exact absurd h (hf s x)
+    | err => simp
+
+/-- the `debug_assert!((a*d - b*c).is_one())` of `left/right_elementary` holds for the matrices built from the
+wrapper's coefficients on a non-zero pivot -/
+theorem det_ok (x y : Int) (hx : x ≠ 0) :
+    detIsOne intOps.toROps (gcdxW intOps x y).2.1 (gcdxW intOps x y).2.2
+      (intOps.toROps.neg (intOps.quo y (gcdxW intOps x y).1)) (intOps.quo x (gcdxW intOps x y).1) = true := by
+  obtain ⟨_, _, _, g4, _⟩ := gcdxW_int_data x y hx
+  rw [detIsOne_iff lawful_int]
+  simp only [id, int_neg]
+  linarith
+
+theorem colStep_total (dbg : Bool) (i : Fin m) (jc : Fin n) (sm : St Int m n × Bool) (i1 : Fin m)
+    (hp : sm.1.t.get i jc ≠ 0) :
+    ∃ sm', eliminateColStep intOps dbg i jc sm i1 = .ok sm' ∧ sm'.1.t.get i jc ≠ 0 := by
+  have key : ∃ sm', eliminateColStep intOps dbg i jc sm i1 = .ok sm' := by
+    unfold eliminateColStep
+    simp only
+    split
+    · exact ⟨_, rfl⟩
+    · unfold sLeft
+      rw [det_ok _ _ hp]
+      simp
+  obtain ⟨sm', h⟩ := key
+  refine ⟨sm', h, ?_⟩
+  rcases colStep_ok dbg i jc sm sm' i1 h hp with ⟨rfl, _⟩ | ⟨hne, _, _, s', t', a, b, d, hd, hx, hy', hbez, _, hT⟩
+  · exact hp
+  · have hpiv : sm'.1.t.get i jc = d := by
+      rw [hT, leftElem_get, if_neg hne, if_pos rfl, hx, hy']
+      linear_combination d * hbez
+    rw [hpiv]; omega
+
+theorem rowStep_total (dbg : Bool) (i : Fin m) (jc : Fin n) (sm : St Int m n × Bool) (j1 : Fin n)
+    (hp : sm.1.t.get i jc ≠ 0) :
+    ∃ sm', eliminateRowStep intOps dbg i jc sm j1 = .ok sm' ∧ sm'.1.t.get i jc ≠ 0 := by
+  have key : ∃ sm', eliminateRowStep intOps dbg i jc sm j1 = .ok sm' := by
+    unfold eliminateRowStep
+    simp only
+    split
+    · exact ⟨_, rfl⟩
+    · unfold sRight
+      rw [det_ok _ _ hp]
+      simp
+  obtain ⟨sm', h⟩ := key
+  refine ⟨sm', h, ?_⟩
+  rcases rowStep_ok dbg i jc sm sm' j1 h hp with ⟨rfl, _⟩ | ⟨hne, _, _, s', t', a, b, d, hd, hx, hy', hbez, _, hT⟩
+  · exact hp
+  · have hpiv : sm'.1.t.get i jc = d := by
+      rw [hT, rightElem_get, if_neg hne, if_pos rfl, hx, hy']
+      linear_combination d * hbez
+    rw [hpiv]; omega
+
+theorem eliminateCol_total (dbg : Bool) (s : St Int m n) (i : Fin m) (jc : Fin n) (hp : s.t.get i jc ≠ 0) :
+    ∃ r, eliminateCol intOps dbg s i jc = .ok r := by
+  obtain ⟨r, h, _⟩ := foldlM_total (eliminateColStep intOps dbg i jc) (fun sm => sm.1.t.get i jc ≠ 0)
+    (fun sm i1 hsm => colStep_total dbg i jc sm i1 hsm) (List.finRange m) (s, false) hp
+  exact ⟨r, h⟩
+
+theorem eliminateRow_total (dbg : Bool) (s : St Int m n) (i : Fin m) (jc : Fin n) (hp : s.t.get i jc ≠ 0) :
+    ∃ r, eliminateRow intOps dbg s i jc = .ok r := by
+  obtain ⟨r, h, _⟩ := foldlM_total (eliminateRowStep intOps dbg i jc) (fun sm => sm.1.t.get i jc ≠ 0)
+    (fun sm j1 hsm => rowStep_total dbg i jc sm j1 hsm) (List.finRange n) (s, false) hp
+  exact ⟨r, h⟩
+
+/-- `modified == false` after `eliminate_col` means: nothing was done because the column was already clear -/
+theorem eliminateCol_flag {α : Type} (e : EOps α) (dbg : Bool) (s : St α m n) (i : Fin m) (jc : Fin n)
+    (r : St α m n × Bool) (h : eliminateCol e dbg s i jc = .ok r) (hfl : r.2 = false) :
+    r.1 = s ∧ ∀ r', r' ≠ i → e.isZero (s.t.get r' jc) = true := by
+  unfold eliminateCol at h
+  have key := foldlM_prefix (σ := St α m n × Bool) (β := Fin m) (eliminateColStep e dbg i jc)
+    (fun pre sm => sm.2 = false → sm.1 = s ∧ ∀ r' ∈ pre, r' ≠ i → e.isZero (s.t.get r' jc) = true) ?_
+    (List.finRange m) [] (s, false) r (fun _ => ⟨rfl, by simp⟩) h
+  · obtain ⟨k1, k2⟩ := key hfl
+    exact ⟨k1, fun r' hr' => k2 r' (by simp) hr'⟩
+  · intro pre i1 sm sm' hP hstep hfl'
+    unfold eliminateColStep at hstep
+    simp only at hstep
+    split at hstep
+    · rename_i hc
+      injection hstep with hstep; subst hstep
+      obtain ⟨p1, p2⟩ := hP hfl'
+      refine ⟨p1, ?_⟩
+      intro r' hr' hri
+      rw [List.mem_append, List.mem_singleton] at hr'
+      rcases hr' with hr' | rfl
+      · exact p2 r' hr' hri
+      · simp only [Bool.or_eq_true, decide_eq_true_eq] at hc
+        rcases hc with hc | hc
+        · exact absurd hc.symm hri
+        · rw [← p1]; exact hc
+    · split at hstep
+      · injection hstep with hstep; subst hstep; cases hfl'
+      · cases hstep
+      · cases hstep
+
+theorem eliminateRow_flag {α : Type} (e : EOps α) (dbg : Bool) (s : St α m n) (i : Fin m) (jc : Fin n)
+    (r : St α m n × Bool) (h : eliminateRow e dbg s i jc = .ok r) (hfl : r.2 = false) :
+    r.1 = s ∧ ∀ c, c ≠ jc → e.isZero (s.t.get i c) = true := by
+  unfold eliminateRow at h
+  have key := foldlM_prefix (σ := St α m n × Bool) (β := Fin n) (eliminateRowStep e dbg i jc)
+    (fun pre sm => sm.2 = false → sm.1 = s ∧ ∀ c ∈ pre, c ≠ jc → e.isZero (s.t.get i c) = true) ?_
+    (List.finRange n) [] (s, false) r (fun _ => ⟨rfl, by simp⟩) h
+  · obtain ⟨k1, k2⟩ := key hfl
+    exact ⟨k1, fun c hc => k2 c (by simp) hc⟩
+  · intro pre j1 sm sm' hP hstep hfl'
+    unfold eliminateRowStep at hstep
+    simp only at hstep
+    split at hstep
+    · rename_i hc
+      injection hstep with hstep; subst hstep
+      obtain ⟨p1, p2⟩ := hP hfl'
+      refine ⟨p1, ?_⟩
+      intro c hc' hcj
+      rw [List.mem_append, List.mem_singleton] at hc'
+      rcases hc' with hc' | rfl
+      · exact p2 c hc' hcj
+      · simp only [Bool.or_eq_true, decide_eq_true_eq] at hc
+        rcases hc with hc | hc
+        · exact absurd hc.symm hcj
+        · rw [← p1]; exact hc
+    · split at hstep
+      · injection hstep with hstep; subst hstep; cases hfl'
+      · cases hstep
+      · cases hstep
+
+/-- `eliminate_at` on a non-zero pivot never panics: the determinant assertions hold, and the
+`assert!(modified)` cannot fire while the loop condition is true -/
+theorem eliminateAt_ne_panic (dbg : Bool) (i : Fin m) (jc : Fin n) : ∀ (fuel : Nat) (s : St Int m n),
+    s.t.get i jc ≠ 0 → eliminateAt intOps dbg i jc fuel s ≠ .panic := by
+  intro fuel
+  induction fuel with
+  | zero => intro s _; simp [eliminateAt]
+  | succ fuel ih =>
+    intro s hp h
+    rw [eliminateAt] at h
+    split at h
+    · rename_i hc
+      obtain ⟨r1, h1⟩ := eliminateCol_total dbg s i jc hp
+      obtain ⟨_, c2, _, _⟩ := eliminateCol_post (frameOK_true i jc) dbg s r1 h1 trivial hp
+      obtain ⟨r2, h2⟩ := eliminateRow_total dbg r1.1 i jc c2
+      obtain ⟨_, d2, _, _, _⟩ := eliminateRow_post (frameOK_true i jc) dbg r1.1 r2 h2 trivial c2
+        (eliminateCol_post (frameOK_true i jc) dbg s r1 h1 trivial hp).2.2.2
+      rw [h1] at h; simp only at h
+      rw [h2] at h; simp only at h
+      split at h
+      · rename_i hfl
+        simp only [Bool.not_eq_true', Bool.or_eq_false_iff] at hfl
+        obtain ⟨e1, e2⟩ := eliminateCol_flag intOps dbg s i jc r1 h1 hfl.1
+        obtain ⟨_, e4⟩ := eliminateRow_flag intOps dbg r1.1 i jc r2 h2 hfl.2
+        rw [e1] at e4
+        have h1' := (rowNz_le_one_iff s.t i jc hp).2 (fun c hc => (int_isZero _).1 (e4 c hc))
+        have h2' := (colNz_le_one_iff s.t i jc hp).2 (fun r hr => (int_isZero _).1 (e2 r hr))
+        simp only [Bool.or_eq_true, decide_eq_true_eq] at hc
+        omega
+      · exact ih r2.1 d2 h
+    · cases h
+
+theorem selectPivot_nz (T : Mat Int m n) (below : Nat) (j : Fin n) (ip : Fin m)
+    (h : selectPivot intOps T below j = some ip) : T.get ip j ≠ 0 := by
+  unfold selectPivot at h
+  have key := foldl_prefix (σ := Option (Fin m × Nat)) (β := Fin m)
+    (fun (acc : Option (Fin m × Nat)) i =>
+      if below ≤ i.1 && !intOps.toROps.isZero (T.get i j) then
+        let k := rowNz intOps T i
+        match acc with
+        | none => some (i, k)
+        | some (_, k0) => if k < k0 then some (i, k) else acc
+      else acc)
+    (fun _ acc => ∀ p, acc = some p → T.get p.1 j ≠ 0) ?_ (List.finRange m) [] none (by simp)
+  · generalize List.foldl _ none (List.finRange m) = acc at key h
+    cases acc with
+    | none => simp at h
+    | some p =>
+      simp only [Option.map_some, Option.some.injEq] at h
+      rw [← h]; exact key p rfl
+  · intro pre x acc p1
+    split
+    · rename_i hc
+      simp only [Bool.and_eq_true, decide_eq_true_eq, Bool.not_eq_true', int_isZero_false] at hc
+      cases acc with
+      | none =>
+        intro p hp; simp only [Option.some.injEq] at hp; rw [← hp]; exact hc.2
+      | some p0 =>
+        obtain ⟨i0, k0⟩ := p0
+        simp only
+        split
+        · intro p hp; simp only [Option.some.injEq] at hp; rw [← hp]; exact hc.2
+        · exact p1
+    · exact p1
+
+/-- `eliminate_step` never panics over ℤ: `mul_col` by `±1` is fine and the pivot handed to `eliminate_at` is
+non-zero -/
+theorem eliminateStep_ne_panic (dbg : Bool) (fuel : Nat) (s : St Int m n) (i : Fin m) (j : Fin n) (hi : i.1 < n)
+    (hij : i.1 ≤ j.1) : eliminateStep intOps dbg fuel s i j hi ≠ .panic := by
+  have hsel := selectPivot_spec s.t i.1 j
+  unfold eliminateStep
+  split
+  · simp
+  · rename_i ip hsome
+    have hip := hsel.1 ip hsome
+    have hnz := selectPivot_nz s.t i.1 j ip hsome
+    have hx : (stepPrep s i ip ⟨i.1, hi⟩ j).t.get i ⟨i.1, hi⟩ ≠ 0 := by
+      rw [stepPrep_get s i ip ⟨i.1, hi⟩ j hip hij, if_pos rfl, if_pos rfl]; exact hnz
+    generalize stepPrep s i ip ⟨i.1, hi⟩ j = s1 at hx
+    simp only
+    have key : ∃ s2, (if (!intOps.toROps.isOne (intOps.normUnit (s1.t.get i ⟨i.1, hi⟩))) = true then
+        sMulCol intOps s1 ⟨i.1, hi⟩ (intOps.normUnit (s1.t.get i ⟨i.1, hi⟩)) else Res.ok s1) = .ok s2 ∧
+        s2.t.get i ⟨i.1, hi⟩ ≠ 0 := by
+      by_cases hneg : s1.t.get i ⟨i.1, hi⟩ < 0
+      · have hu : intOps.normUnit (s1.t.get i ⟨i.1, hi⟩) = -1 := by rw [int_normUnit, if_pos hneg]
+        rw [hu]
+        have h1 : (!intOps.toROps.isOne (-1 : Int)) = true := rfl
+        rw [if_pos h1]
+        unfold sMulCol
+        have hinv : intOps.inv (-1) = some (-1) := rfl
+        rw [hinv]
+        refine ⟨_, rfl, ?_⟩
+        simp only [mulCol_get, if_pos]
+        omega
+      · have hu : intOps.normUnit (s1.t.get i ⟨i.1, hi⟩) = 1 := by rw [int_normUnit, if_neg hneg]
+        rw [hu]
+        have h1 : ¬ ((!intOps.toROps.isOne (1 : Int)) = true) := by decide
+        rw [if_neg h1]
+        exact ⟨s1, rfl, hx⟩
+    obtain ⟨s2, h2, hp2⟩ := key
+    rw [h2]
+    simp only
+    rw [if_neg (by rw [int_isZero]; exact hp2)]
+    have := eliminateAt_ne_panic dbg i ⟨i.1, hi⟩ fuel s2 hp2
+    split
+    · simp
+    · rename_i h; exact absurd h this
+    · simp
+
+theorem eliminateAllStep_ne_panic (dbg : Bool) (fuel : Nat) (si : St Int m n × Nat) (j : Fin n) :
+    eliminateAllStep intOps dbg fuel si j ≠ .panic := by
+  unfold eliminateAllStep
+  split
+  · rename_i hc
+    have := eliminateStep_ne_panic dbg fuel si.1 ⟨si.2, hc.1⟩ j (Nat.lt_of_le_of_lt hc.2 j.2) hc.2
+    split
+    · simp
+    · simp
+    · rename_i h; exact absurd h this
+    · simp
+  · simp
+
+theorem eliminateAll_ne_panic (dbg : Bool) (fuel : Nat) (s : St Int m n) :
+    eliminateAll intOps dbg fuel s ≠ .panic := by
+  have := foldlM_ne_panic (eliminateAllStep intOps dbg fuel) (eliminateAllStep_ne_panic dbg fuel)
+    (List.finRange n) (s, 0)
+  unfold eliminateAll
+  split
+  · simp
+  · rename_i h; exact absurd h this
+  · simp
+
+theorem diagNormalizeStep_ne_panic (dbg : Bool) (s : St Int m n) (i : Nat) (hm : i + 1 < m) (hn : i + 1 < n)
+    (hx : s.t.get ⟨i, Nat.lt_of_succ_lt hm⟩ ⟨i, Nat.lt_of_succ_lt hn⟩ ≠ 0)
+    (hy : s.t.get ⟨i + 1, hm⟩ ⟨i + 1, hn⟩ ≠ 0) : diagNormalizeStep intOps dbg s i hm hn ≠ .panic := by
+  unfold diagNormalizeStep
+  simp only
+  generalize s.t.get ⟨i, Nat.lt_of_succ_lt hm⟩ ⟨i, Nat.lt_of_succ_lt hn⟩ = x at hx ⊢
+  generalize s.t.get ⟨i + 1, hm⟩ ⟨i + 1, hn⟩ = y at hy ⊢
+  rw [if_neg (by simp [hx, hy])]
+  split
+  · simp
+  · split
+    · simp
+    · obtain ⟨_, _, _, g4, _⟩ := gcdxW_int_data x y hx
+      have hdet1 : detIsOne intOps.toROps intOps.toROps.one intOps.toROps.one
+          (intOps.toROps.neg (intOps.toROps.mul (gcdxW intOps x y).2.2 (intOps.quo y (gcdxW intOps x y).1)))
+          (intOps.toROps.mul (gcdxW intOps x y).2.1 (intOps.quo x (gcdxW intOps x y).1)) = true := by
+        rw [detIsOne_iff lawful_int]
+        simp only [id, int_neg, int_mul, int_one]
+        linarith
+      unfold sLeft sRight
+      rw [hdet1, det_ok x y hx]
+      simp
+
+theorem diagPass_ne_panic (dbg : Bool) (r : Nat) : ∀ (cnt i : Nat) (s : St Int m n),
+    (∀ k, k < r → dgz s.t k ≠ 0) → diagPass intOps dbg r cnt i s ≠ .panic := by
+  intro cnt
+  induction cnt with
+  | zero => intro i s _; rw [diagPass]; simp
+  | succ cnt ih =>
+    intro i s hnz
+    rw [diagPass]
+    split
+    · rename_i hc
+      have hx := hnz i (by omega)
+      have hy := hnz (i + 1) hc.1
+      rw [dgz, dg_eq _ _ i (Nat.lt_of_succ_lt hc.2.1) (Nat.lt_of_succ_lt hc.2.2)] at hx
+      rw [dgz, dg_eq _ _ (i + 1) hc.2.1 hc.2.2] at hy
+      have := diagNormalizeStep_ne_panic dbg s i hc.2.1 hc.2.2 hx hy
+      split
+      · rename_i r1 h1
+        split
+        · rename_i hb
+          obtain ⟨s1, b1⟩ := r1
+          simp only at hb
+          subst hb
+          obtain ⟨e1, _⟩ := diagNormalizeStep_true dbg s i hc.2.1 hc.2.2 s1 h1
+          subst e1
+          exact ih _ _ hnz
+        · simp
+      · rename_i h; exact absurd h this
+      · simp
+    · simp
+
+theorem diagOuter_ne_panic (dbg : Bool) (r : Nat) : ∀ (fuel : Nat) (s : St Int m n), DiagZ s.t →
+    (∀ k, k < r → dgz s.t k ≠ 0) → diagOuter intOps dbg r fuel s ≠ .panic := by
+  intro fuel
+  induction fuel with
+  | zero => intro s _ _; simp [diagOuter]
+  | succ fuel ih =>
+    intro s hD hnz h
+    rw [diagOuter] at h
+    split at h
+    · rename_i r1 h1
+      rcases diagPass_spec dbg r r 0 s r1 h1 with rfl | ⟨i0, hm, hn, hir, hb, hstep⟩
+      · simp at h
+      · rw [if_neg (by simp [hb])] at h
+        obtain ⟨d1, d2, _, _, d5, d6, _⟩ := diagStep_dg dbg s i0 hm hn r1 hstep hD
+        have hnz1 : ∀ k, k < r → dgz r1.1.t k ≠ 0 := by
+          intro k hk
+          by_cases e1 : k = i0
+          · rw [e1]; exact d5
+          · by_cases e2 : k = i0 + 1
+            · rw [e2]; exact d6
+            · rw [d2 k e1 e2]; exact hnz k hk
+        exact ih r1.1 d1 hnz1 h
+    · rename_i h1
+      exact diagPass_ne_panic dbg r _ _ _ hnz h1
+    · cases h
+
+theorem normalizeStep_ne_panic (s : St Int m n) (k : Nat) : normalizeStep intOps s k ≠ .panic := by
+  unfold normalizeStep
+  split
+  · rename_i hk
+    simp only
+    by_cases hneg : s.t.get ⟨k, hk.1⟩ ⟨k, hk.2⟩ < 0
+    · have hu : intOps.normUnit (s.t.get ⟨k, hk.1⟩ ⟨k, hk.2⟩) = -1 := by rw [int_normUnit, if_pos hneg]
+      rw [hu]
+      have h1 : (!intOps.toROps.isOne (-1 : Int)) = true := rfl
+      rw [if_pos h1]
+      unfold sMulRow
+      have hinv : intOps.inv (-1) = some (-1) := rfl
+      rw [hinv]
+      simp
+    · have hu : intOps.normUnit (s.t.get ⟨k, hk.1⟩ ⟨k, hk.2⟩) = 1 := by rw [int_normUnit, if_neg hneg]
+      rw [hu]
+      have h1 : ¬ ((!intOps.toROps.isOne (1 : Int)) = true) := by decide
+      rw [if_neg h1]
+      simp
+  · simp
+
+theorem diagNormalize_ne_panic (dbg : Bool) (fuel : Nat) (s : St Int m n) (hD : DiagZ s.t) :
+    diagNormalize intOps dbg fuel s ≠ .panic := by
+  obtain ⟨_, z2, _⟩ := firstZeroDiag_spec s.t
+  have hdiag : isDiag intOps.toROps s.t = true := (isDiag_iff lawful_int s.t).2 hD
+  have := diagOuter_ne_panic dbg _ fuel s hD z2
+  unfold diagNormalize
+  rw [hdiag]
+  rw [if_neg (by simp)]
+  split
+  · simp
+  · split
+    · exact foldlM_ne_panic _ normalizeStep_ne_panic _ _
+    · rename_i h; exact absurd h this
+    · simp
+
+/-- over ℤ the code model of `SnfCalc::process` never panics (unless the preprocessing does) -/
+theorem snfCalc_ne_panic (dbg : Bool) (pre : St Int m n → Res (St Int m n)) (fuel : Nat) (A : Mat Int m n)
+    (hpre : pre (St.init intOps.toROps A) ≠ .panic) : snfCalc intOps dbg pre fuel A ≠ .panic := by
+  unfold snfCalc
+  split
+  · simp
+  · split
+    · rename_i s1 h1
+      have h2 := eliminateAll_ne_panic dbg fuel s1
+      split
+      · rename_i s2 h2'
+        exact diagNormalize_ne_panic dbg fuel s2 (eliminateAll_post dbg fuel s1 s2 h2').1
+      · rename_i h; exact absurd h h2
+      · simp
+    · rename_i h; exact absurd h hpre
+    · simp
+
+/-- **totality over ℤ**: if the preprocessing returns, there are a fuel bound `N` and a state `s` such that the
+code model returns `s` for every `fuel ≥ N` -/
+theorem snfCalc_total (dbg : Bool) (pre : St Int m n → Res (St Int m n)) (A : Mat Int m n) (s1 : St Int m n)
+    (hpre : pre (St.init intOps.toROps A) = .ok s1) :
+    ∃ N s, ∀ fuel, N ≤ fuel → snfCalc intOps dbg pre fuel A = .ok s := by
+  obtain ⟨N, hN⟩ := snfCalc_exists_fuel dbg pre A (by rw [hpre]; simp)
+  have h1 := hN N (Nat.le_refl _)
+  have h2 := snfCalc_ne_panic dbg pre N A (by rw [hpre]; simp)
+  cases h : snfCalc intOps dbg pre N A with
+  | ok s =>
+    refine ⟨N, s, fun fuel hf => ?_⟩
+    rw [snfCalc_mono intOps dbg pre N A h1 fuel hf, h]
+  | panic => exact absurd h h2
+  | err => exact absurd h h1
+
 end Yuiv.C09
